@@ -113,3 +113,61 @@ func VerifC01Padding() {
 	}
 	verifCover("C01.pad.end")
 }
+
+// extension blocks in the upper range of the 16-bit length field (which counts
+// 32-bit words: up to 262140 bytes), built through the public API
+func VerifC01HugeExtension() {
+	var p Packet
+	verifFixedFields(&p.Header, 0)
+	p.Extension = true
+	var ids []uint8
+	var want [][]byte
+	if verifCase("form", 0, 1) == 0 {
+		words := verifPick("words", []int{0x3FFF, 0x4000, 0x4001, 0xFFFF})
+		p.ExtensionProfile = verifU16("profile")
+		verifAssume(p.ExtensionProfile != 0xBEDE)
+		verifAssume(p.ExtensionProfile != 0x1000)
+		v := verifFiller("legacy", 4*words)
+		verifAssert("C01.huge.set", p.SetExtension(0, v) == nil)
+		ids, want = []uint8{0}, [][]byte{v}
+	} else {
+		// two-byte profile filled to 65532..65535 bytes: 255 elements of 2+255 bytes, the last one trimmed
+		p.ExtensionProfile = 0x1000
+		trim := verifCase("trim", 0, 3)
+		for id := 1; id <= 255; id++ {
+			n := 255
+			if id == 255 {
+				n -= trim
+			}
+			var v []byte
+			if id == 1 || id == 255 {
+				v = verifFiller("twobyte", n)
+			} else {
+				v = make([]byte, n)
+				for k := range v {
+					v[k] = uint8(id + k)
+				}
+			}
+			verifAssert("C01.huge.set", p.SetExtension(uint8(id), v) == nil)
+			ids, want = append(ids, uint8(id)), append(want, v)
+		}
+	}
+	p.Payload = verifBytes("payload", 2)
+	size := p.MarshalSize()
+	raw, err := p.Marshal()
+	verifAssert("C01.huge.marshal-noerr", err == nil)
+	verifAssert("C01.huge.marshal-size", len(raw) == size)
+	var q Packet
+	verifAssert("C01.huge.unmarshal-noerr", q.Unmarshal(raw) == nil)
+	got := q.GetExtensionIDs()
+	verifAssert("C01.huge.id-count", len(got) == len(ids))
+	for i := range ids {
+		verifAssert("C01.huge.id", got[i] == ids[i])
+		verifAssert("C01.huge.value", verifEqBytes(q.GetExtension(ids[i]), want[i]))
+	}
+	verifAssert("C01.huge.payload", verifEqBytes(q.Payload, p.Payload))
+	var h Header
+	n, err := h.Unmarshal(raw)
+	verifAssert("C01.huge.header-size", err == nil && n == size-2 && n == p.Header.MarshalSize())
+	verifCover("C01.huge.end")
+}
